@@ -181,6 +181,74 @@ def refit_sequences(run):
                             theorem="C01 (recovery; not a theorem)")
 
 
+def default_guess_sequences(run):
+    """the documented workflow 'get the initial parameters, edit them, fit',
+    followed by a fit with the library's own initial guess
+    (params_initial=None) on the same curve, approach and retract: the second
+    fit must start from the library's guess again -- not from what the caller
+    did to the object it was given -- and recover the generating parameters"""
+    for mk in ["hertz_para", "hertz_cone", "hertz_pyr3s"]:
+        true = fits.default_params(mk, E=5000.0, contact_point=3e-7,
+                                   baseline=2e-10)
+        cols = fits.model_curve(mk, true, n_app=300, n_ret=100)
+        fmax = float(np.max(np.abs(cols["force"])))
+        span = float(np.ptp(cols["tip position"]))
+
+        def recovered(idnt, seg_id):
+            fp = idnt.fit_properties
+            if not fp.get("success"):
+                return "fit reports success False"
+            pf = fp["params_fitted"]
+            eE = abs(pf["E"].value / true["E"] - 1)
+            ec = abs(pf["contact_point"].value - true["contact_point"]) / span
+            eb = abs(pf["baseline"].value - true["baseline"]) / fmax
+            bad = [n for n in pf if n in true and n not in (
+                "E", "contact_point", "baseline")
+                and pf[n].value != true[n]]
+            if bad:
+                return (f"geometry parameters {bad} are not the model's "
+                        "defaults")
+            if max(eE, ec, eb) > 1e-5:
+                return (f"E error {eE:.2e}, cp {ec:.2e}, baseline {eb:.2e}")
+            return None
+        for variant in ("control", "edited-guess-first"):
+            idnt = curves.make_indentation(cols)
+            key = f"default-guess:{mk}:{variant}"
+            run.case({"default-guess": variant, "model": mk}, kind="refit")
+            try:
+                with warnings.catch_warnings():
+                    warnings.simplefilter("ignore")
+                    if variant != "control":
+                        p = idnt.get_initial_fit_parameters(model_key=mk)
+                        geo = [n for n in p if n not in (
+                            "E", "contact_point", "baseline", "nu")]
+                        if geo:
+                            p[geo[0]].set(value=float(p[geo[0]].value) * 1.4)
+                        p["baseline"].set(value=0, vary=False)
+                        idnt.fit_model(model_key=mk, params_initial=p,
+                                       segment="approach")
+                    idnt.fit_model(model_key=mk, params_initial=None,
+                                   segment="approach")
+                    why = recovered(idnt, 0)
+                    if why is None:
+                        idnt.fit_model(model_key=mk, params_initial=None,
+                                       segment="retract")
+                        why = recovered(idnt, 1)
+                        if why:
+                            why = "retract: " + why
+            except BaseException as e:
+                why = f"raised {type(e).__name__}: {e}"
+            if why and variant == "control":
+                run.count("default-guess-control-not-recovered(logged)")
+                break       # the library's own guess is outside the basin
+            if why:
+                run.failing(SITE, key, f"{mk}: a fit with the library's "
+                            "initial guess after an exploratory fit with an "
+                            f"edited copy of that guess: {why}",
+                            payload={"kind": "rerun"},
+                            theorem="C01 (recovery; not a theorem)")
+
+
 def geometry_cases(run):
     """exact curves for a measurement geometry with gcf_k != 1 (the model
     sees gcf_k times the measured indentation), the contact point limited by
@@ -341,6 +409,7 @@ def check(run):
             fail(f"fitted curve deviates from the data by {d:.2e} Fmax on "
                  "the fitted segment")
     refit_sequences(run)
+    default_guess_sequences(run)
     geometry_cases(run)
     run.rule = ("ground truth from the implementation's own model functions: "
                 "5 models x parameters in bounds (E over 3.5 decades) x 50-"
